@@ -106,6 +106,17 @@ Theorem pinned_forgotten_when_session_ends_refuted :
 Proof. exact pinned_forgets_to_forget. Qed.
 Print Assumptions pinned_forgotten_when_session_ends_refuted.
 
+(* why at_most_one_session_per_id needs the admission test and the insertion to be ONE critical
+   section: with the test under a read lock and the insertion under a later write lock, two
+   sessions announcing the same ID at the same instant are both established, sharing one entry
+   (the harness's gate-race phase looks for exactly this on the implementation) *)
+Theorem split_check_and_insert_refuted :
+  let id := str "twin"%string in
+  let st := split_run (str "victim"%string) bi1 ([], [SInit; SInit]) [SCheck 0 id; SCheck 1 id; SInsert 0; SInsert 1] in
+  snd st = [SHolding id (Dy false 1 0); SHolding id (Dy false 1 0)] /\ List.length (fst st) = 1%nat.
+Proof. exact split_admission_refuted. Qed.
+Print Assumptions split_check_and_insert_refuted.
+
 (* the sequential model of one session (Model/Proto.v, tied to the code byte for byte by C07 and
    C11 cases) is the composition of this file's atomic steps *)
 Theorem admission_refines_proto_step : forall E n s body j ri,
